@@ -1,7 +1,9 @@
 package main
 
 import (
+	"fmt"
 	"os"
+	"sync"
 
 	"github.com/bbva/qed/storage"
 	"github.com/bbva/qed/storage/rocks"
@@ -30,6 +32,79 @@ func rocksStoreCmd(out *cq.Out, seed uint64, tier string) {
 		return s2
 	}
 	storeops.Run(out, seed, tier, "rocks", open, reopen)
+	largeBatchAtomic(out, seed, tier)
+}
+
+// largeBatchAtomic: one Mutate call with thousands of mutations over several tables (a bulk insertion of a few
+// thousand events produces such a batch) is one atomic write: it reaches the engine as one write-ahead-log record, and a
+// reader that sees its first key also sees its last.
+func largeBatchAtomic(out *cq.Out, seed uint64, tier string) {
+	dir, _ := os.MkdirTemp(out.Dir, "rocksbig")
+	st, err := rocks.NewRocksDBStore(dir, 0)
+	if err != nil {
+		panic(err)
+	}
+	defer os.RemoveAll(dir)
+	sizes := []int{1500, 5000, 10003}
+	if tier == "thorough" {
+		sizes = append(sizes, 4095, 4096, 4097, 40000)
+	}
+	tables := []storage.Table{storage.HistoryTable, storage.HyperTable, storage.HyperCacheTable}
+	for round, n := range sizes {
+		var muts []*storage.Mutation
+		for i := 0; i < n; i++ {
+			k := []byte(fmt.Sprintf("r%02d-%07d", round, i))
+			muts = append(muts, storage.NewMutation(tables[i%len(tables)], k, []byte{byte(round), byte(i)}))
+		}
+		muts = append(muts, storage.NewMutation(storage.FSMStateTable, storage.FSMStateTableKey, []byte{byte(round)}))
+		first, last := muts[0], muts[len(muts)-1]
+		stop := make(chan struct{})
+		torn := make(chan string, 1)
+		var wg sync.WaitGroup
+		wg.Add(1)
+		go func() {
+			defer wg.Done()
+			for {
+				select {
+				case <-stop:
+					return
+				default:
+				}
+				f, ferr := st.Get(first.Table, first.Key)
+				l, lerr := st.Get(last.Table, last.Key)
+				if ferr == nil && f != nil && (lerr != nil || l == nil || len(l.Value) == 0 || l.Value[0] != byte(round)) {
+					select {
+					case torn <- fmt.Sprintf("a reader saw the first key of a %d-mutation batch but not yet its last (the FSM state entry)", n+1):
+					default:
+					}
+					return
+				}
+			}
+		}()
+		seqBefore := st.LastWALSequenceNumber()
+		if err := st.Mutate(muts, []byte("meta")); err != nil {
+			panic(err)
+		}
+		close(stop)
+		wg.Wait()
+		records := 0
+		st.FetchSnapshot(nopWriteCloser{}, seqBefore, st.LastWALSequenceNumber(), func(meta []byte) (bool, error) {
+			records++
+			return false, nil
+		})
+		desc := map[string]interface{}{"seed": seed, "mutations": n + 1, "round": round}
+		out.Case(fmt.Sprintf("largebatch:%d", n), true)
+		out.Count("large_batches", 1)
+		if records != 1 {
+			out.Violate("C14:batch-not-atomic:several-engine-writes", fmt.Sprintf("one Mutate call with %d mutations reached the storage engine as %d separate writes: a reader or a crash in between sees part of the batch", n+1, records), desc)
+		}
+		select {
+		case msg := <-torn:
+			out.Violate("C14:batch-not-atomic:torn-read", msg, desc)
+		default:
+		}
+	}
+	st.Close()
 }
 
 // dispatch is extended by the other node commands.
